@@ -72,7 +72,7 @@ LEVEL = {
          "The message wording itself is outside the projection (facts are extracted by the pinned wording first, by keywords and the figures named otherwise)."),
  "C18": ("Theorems C18_fns, C18_decode_limits, C18_extremes, C18_exp: max()/min()/min_positive() are ±(10^p−1)·10^qmax and 10^qmin for every width; every finite pattern lies within and, "
          "if non-zero, above (exact comparison after scaling by 10^bias); DIGITS-digit numerals are accepted exactly on [qmin, qmax]. Judged2.judgeWithinLimits_model + leScaled_iff: the value every bit pattern of a fixed-width type prints lies within ±MAX and, if non-zero, at or above MIN_POSITIVE (exact comparison over Q).",
-         "The byte constants MAX/MIN/MIN_POSITIVE/DIGITS/*_10_EXP are compared with the model's values by the `consts` request."),
+         "The byte constants MAX/MIN/MIN_POSITIVE/ZERO/ONE/NEG_ONE and DIGITS/*_10_EXP are translated out of src/bitstring/fixed{32,64,128}.rs on every run (tools/gen_consts.py) and each is re-proved by kernel evaluation to be the specification's encoding (27 generated theorems, DESIGN §10.12); they are also compared by the `consts` request."),
 }
 
 
@@ -94,6 +94,7 @@ def main():
             "level_claimed": {"category": cat, "text": text + f" [{n} theorems audited per run]", "design_ref": "DESIGN.md §10.4, §5 " + i},
             "level_note": COMMON_NOTE + note,
             "technique": ("Lean 4 machine-checked proof about a hand-written model + per-run model/implementation correspondence check with the Lean specification as oracle"
+                          + ("; the published constants are translated from the source on every run and re-proved by kernel evaluation" if i in ("C18", "C09") else "")
                           if i != "C05" else "Lean 4 machine-checked proof that a checked model with every Rust panic site explicit never panics + catch_unwind execution of every operation in 2 profiles x 3 feature sets"),
         })
     m = {
